@@ -62,11 +62,12 @@ for pid in sorted(P):
                   'C07': ' and, for Decoder.decode, by a source-to-Lean translation proved equal to the model (Props.SrcDec)',
                   'C15': ' and, for Encoder.add and the decoder side, by a source-to-Lean translation proved equal to the model (Props.SrcEnc, Props.SrcDec)',
                   'C17': ' and, for Decoder.decode, by a source-to-Lean translation proved equal to the model (Props.SrcDec)',
+                  'C12': ' and, for HuffmanEncoder.encode (accumulator, padding and the hex-string conversion to octets), by a source-to-Lean translation proved equal to the model (Props.SrcHuffEnc)',
                   'C13': ' and, for decode_huffman, by a source-to-Lean translation proved equal to the model (Props.SrcHuff)',
                   'C16': ' and, for decode_integer and its cap, by a source-to-Lean translation proved equal to the model (Props.Src)',
-                  'C03': ' and, for Encoder.add and the representations it emits (HeaderTable.search included), by a source-to-Lean translation proved equal to the model (Props.SrcEnc, Props.SrcTable)',
+                  'C03': ' and, for Encoder.add and the representations it emits (HeaderTable.search included), by a source-to-Lean translation proved equal to the model (Props.SrcEnc, Props.SrcTable, Props.SrcHuffEnc)',
                   'C09': ' and, for the header_table_size setter and _encode_table_size_change, by a source-to-Lean translation proved equal to the model (Props.SrcEnc)',
-                  'C01': ' and, for Encoder.add and Decoder.decode, by a source-to-Lean translation proved equal to the model (Props.SrcEnc, Props.SrcDec)',
+                  'C01': ' and, for Encoder.add with HuffmanEncoder.encode and Decoder.decode, by a source-to-Lean translation proved equal to the model (Props.SrcEnc, Props.SrcHuffEnc, Props.SrcDec)',
                   'C06': ' and, for HeaderTable.add/_shrink/maxsize, by a source-to-Lean translation proved equal to the model (Props.SrcTable)',
                   'C14': ' and, for HeaderTable.get_by_index, by a source-to-Lean translation proved equal to the model (Props.SrcTable)',
                   'C08': ' and, for Decoder.decode and the table setter, by a source-to-Lean translation proved equal to the model (Props.SrcDec, Props.SrcTable)',
